@@ -69,7 +69,7 @@ TEXTS = {
         "technique": "Lean 4 proof over executable state machine + trace replay correspondence + direct oracle",
     },
     "C07": {
-        "text": "Lean theorem verbatim_emitted: the reconstructor model emits every run of ignored tokens byte for byte for every counter "
+        "text": "Lean theorems C07_format (whole pipeline: for every input, parser behaviour and wrapper that keeps ignored tokens, a run of marked tokens is in the output contiguously with its scanned whitespace and text) and verbatim_emitted: the reconstructor model emits every run of ignored tokens byte for byte for every counter "
                 "assignment (under a decidable no-safety-net side condition, tallied per case); ignored tokens cannot be rewritten. The "
                 "toggle recogniser, marking, void step and reconstructor models are tied to the code by differential execution; a "
                 "substring-equality oracle runs on every case, including a family that places toggle comments between arbitrary tokens.",
